@@ -16,6 +16,10 @@ import (
 	"github.com/fido-device-onboard/go-fdo/serviceinfo"
 )
 
+// maxDevmodModules bounds devmod:nummodules. The value sizes an allocation that
+// is kept in the session, so it cannot be taken from the device unchecked.
+const maxDevmodModules = 65535
+
 type devmodOwnerModule struct {
 	serviceinfo.Devmod
 	Modules []string
@@ -30,6 +34,9 @@ func (d *devmodOwnerModule) HandleInfo(ctx context.Context, messageName string, 
 		var numModules int
 		if err := cbor.NewDecoder(messageBody).Decode(&numModules); err != nil {
 			return err
+		}
+		if numModules < 0 || numModules > maxDevmodModules {
+			return fmt.Errorf("invalid devmod nummodules: %d", numModules)
 		}
 		d.Modules = make([]string, numModules)
 		return nil
@@ -58,8 +65,6 @@ func (d *devmodOwnerModule) parseModules(messageBody io.Reader) error {
 		} else if err != nil {
 			return err
 		}
-		// If the FDO 1.2 spec is made more clear, validate that start plus len
-		// is less than or equal to numModules.
 		if chunk.Start < 0 || chunk.Start > len(d.Modules) || chunk.Len < 0 || len(chunk.Modules) != chunk.Len {
 			return fmt.Errorf("invalid devmod module chunk")
 		}
@@ -71,6 +76,12 @@ func (d *devmodOwnerModule) parseModules(messageBody io.Reader) error {
 		// indicate the start index of the full module array to populate.
 		if idx := slices.Index(d.Modules, ""); idx != -1 && chunk.Start != idx {
 			chunk.Start = idx
+		}
+
+		// The chunk must lie within the list announced by nummodules
+		if chunk.Len > len(d.Modules)-chunk.Start {
+			return fmt.Errorf("invalid devmod module chunk: %d modules at index %d, but nummodules is %d",
+				chunk.Len, chunk.Start, len(d.Modules))
 		}
 
 		copy(d.Modules[chunk.Start:chunk.Start+chunk.Len], chunk.Modules)
